@@ -158,6 +158,8 @@ structure Gw where
   byIdB : List (UInt16 × Nat) := []             -- h.brokerTransactions: broker's / gateway's message ID ↦ transaction id
   connectTx : Option Nat := none                 -- store: by packet type CONNECT
   pingers : List Pinger := []
+  ownPings : Nat := 0                            -- PINGREQs of the gateway itself not answered yet
+  sleepDur : UInt16 := 0                         -- the sleep duration the client announced last
   outs : List (Nat × Out) := []                  -- newest first, with timestamps
   cancelledAt : Option Nat := none               -- the errgroup context was cancelled
   endCls : EndCls := .clean
@@ -538,6 +540,27 @@ def startSleepPinger (g : Gw) (dur : UInt16) : Gw :=
   let ka := g.keepAlive.toNat * 1000
   { g with pingers := g.pingers ++ [{ next := g.now + ka, cancelAt := g.now + dur.toNat * 1000, period := ka }] }
 
+/-- `armSleepPinger`: the pinger of one sleep cycle (it replaces the previous cycle's), for every
+    announced duration as long as the client has a keep-alive at all -/
+def armSleepPinger (g : Gw) (dur : UInt16) : Gw :=
+  if g.keepAlive = 0 then g.cancelSleepPinger else g.cancelSleepPinger.startSleepPinger dur
+
+def isMqOut (o : Nat × Out) : Bool := match o.2 with | .mq _ => true | _ => false
+/-- `lastBrokerWrite`: when the newest packet to the broker was written -/
+def lastMqTime (g : Gw) : Option Nat := (g.outs.find? isMqOut).map (·.1)
+
+/-- `pingBroker`: a PINGREQ on the gateway's own behalf (its PINGRESP is not passed on) -/
+def pingBroker (g : Gw) : Gw := ({ g with ownPings := g.ownPings + 1 } : Gw).mqttSend .pingreq
+
+/-- `keepBrokerAlive`, run after every client datagram that was handled without an error: the
+    datagram proves the client alive, the gateway may have answered it itself — ping the broker if
+    nothing has been written to it for half a keep-alive period -/
+def keepBrokerAlive (g : Gw) : Gw :=
+  if !g.alive ∨ g.keepAlive = 0 ∨ g.st = .disconnected then g
+  else match g.lastMqTime with
+    | some t => if (g.now - t) * 2 < g.keepAlive.toNat * 1000 then g else g.pingBroker
+    | none => g.pingBroker
+
 /-! ## broker → client -/
 
 def bpRegack (g : Gw) (t : Tx) (q : UInt8) (st : BpSt) (data : BpData) (snp : Option Pkt) (rc : UInt8) : Gw :=
@@ -608,11 +631,10 @@ def clearBuffer (g : Gw) : Gw := { g with buffer := [] }
 /-- PINGREQ: a sleeping client wakes up, gets its buffered packets and PINGRESP, and is asleep
     again; otherwise the ping goes to the broker -/
 def handlePingreq (g : Gw) : Gw :=
-  if g.st = .asleep then ((((g.setSt .awake).flushBuffer).snSend .pingresp).setSt .asleep)
+  if g.st = .asleep then
+    -- the announced duration applies to the sleep cycle that begins now, too
+    (((((g.setSt .awake).flushBuffer).snSend .pingresp).setSt .asleep).armSleepPinger g.sleepDur)
   else g.mqttSend .pingreq
-
-def maybeSleepPinger (g : Gw) (d : UInt16) : Gw :=
-  if g.keepAlive ≠ 0 ∧ d > g.keepAlive then g.startSleepPinger d else g
 
 /-- the plain DISCONNECT, forwarded to the broker -/
 def handlePlainDisconnect (g : Gw) : Gw :=
@@ -627,7 +649,7 @@ def clearBufferUnlessAsleep (g : Gw) : Gw := if g.st ≠ .asleep then g.clearBuf
 
 /-- DISCONNECT with a duration: the client goes to sleep; the reply is never queued -/
 def handleSleep (g : Gw) (d : UInt16) : Gw :=
-  ((((g.cancelSleepPinger.maybeSleepPinger d).clearBufferUnlessAsleep).snSendNow (.disconnect 0)).setSt .asleep)
+  (((((({ g with sleepDur := d } : Gw).armSleepPinger d).clearBufferUnlessAsleep).snSendNow (.disconnect 0)).setSt .asleep))
 
 def handleDisconnect (g : Gw) (d : UInt16) : Gw :=
   if d = 0 then g.handlePlainDisconnect else g.handleSleep d
@@ -714,7 +736,9 @@ def handleMq (g : Gw) (p : MqPkt) : Gw :=
       | _ => g
     | none => g
   | .unsuback mid => g.snSend (.unsuback mid)
-  | .pingresp => if g.st ≠ .active then g else g.snSend .pingresp
+  | .pingresp =>
+    if g.ownPings > 0 then { g with ownPings := g.ownPings - 1 }   -- the answer to a ping of the gateway itself
+    else if g.st ≠ .active then g else g.snSend .pingresp
   | .publish dup q r mid topic payload => g.handleBrokerPublish dup q r mid topic payload
   | .pubrel mid =>
     match g.lookupByIdB mid with
@@ -763,7 +787,7 @@ def fireTx (g : Gw) (id : Nat) : Gw :=
 /-- a sleep pinger's ticker: next tick one period later, PINGREQ to the broker -/
 def firePing (g : Gw) (i : Nat) : Gw :=
   ({ g with pingers := g.pingers.mapIdx (fun j (p : Pinger) =>
-      if j = i then { p with next := p.next + p.period } else p) } : Gw).mqttSend .pingreq
+      if j = i then { p with next := p.next + p.period } else p) } : Gw).pingBroker
 
 def dropPinger (g : Gw) (i : Nat) : Gw := { g with pingers := g.pingers.eraseIdx i }
 
@@ -833,7 +857,7 @@ def handleEvent (g : Gw) (ev : Event) : Gw :=
   match ev with
   | .sn bytes =>
     match decode (bytes.take Gen.MaxPacketLen) with
-    | .ok (_, p) => g.handleSn p
+    | .ok (_, p) => (g.handleSn p).keepBrokerAlive
     | _ => g.fail .snDecode
   | .mq p => g.handleMq p
   | .mqGarbage => g.fail .mqDecode
